@@ -100,6 +100,54 @@ def resolve(t, root=None, path=(), depth=0):
     return t
 
 
+def dehard(t, root=None):
+    root = t if root is None else root
+    if t["t"] == "h":
+        return dict(_lookup(root, t["of"]))
+    if t["t"] == "d":
+        return {"t": "d", "c": [[n, dehard(c, root)] for n, c in t["c"]]}
+    return t
+
+
+def previous_copy(tree, stale):
+    """What an earlier transfer of `tree` left at the destination: the dereferenced tree; `stale`: same names, but every
+    regular file has other bytes and the opposite exec bit (an out-of-date copy)."""
+    t = resolve(dehard(tree))
+
+    def age(x):
+        if x["t"] == "d":
+            return {"t": "d", "c": [[n, age(c)] for n, c in x["c"]]}
+        if x["t"] == "f" and stale:
+            return {"t": "f", "b": "6f6c64", "x": not x["x"]}
+        return x
+    return age(t)
+
+
+def pre_state(c):
+    """The destination before the transfer, as an input-style tree (None = absent)."""
+    ds = c["dstate"]
+    if ds == "absent":
+        return None
+    if ds == "file":
+        return {"t": "f", "b": "6f6c64", "x": False}
+    if ds == "dir":
+        return {"t": "d", "c": []}
+    if ds == "dirpre":
+        return {"t": "d", "c": [["zz keep", {"t": "f", "b": "6b656570", "x": False}]]}
+    if ds == "conflict":      # an entry named like the source, of the other kind
+        other = {"t": "f", "b": "6f6c64", "x": False} if c["tree"]["t"] == "d" else \
+            {"t": "d", "c": [["in", {"t": "f", "b": "6f6c64", "x": False}]]}
+        return {"t": "d", "c": [[c["sname"], other]]}
+    if ds in ("copy", "stale"):
+        return {"t": "d", "c": [[c["sname"], previous_copy(c["tree"], ds == "stale")]]}
+    raise ValueError(ds)
+
+
+def kind_conflict(c):
+    ds = c["dstate"]
+    return ds == "conflict" or (ds == "file" and c["tree"]["t"] == "d")
+
+
 def has_link(t):
     return t["t"] == "l" or (t["t"] == "d" and any(has_link(c) for _, c in t["c"]))
 
@@ -309,7 +357,7 @@ class C22(Prop):
             dname = rng.choice(UNSAFE_ROOTS)
         else:
             dname = "d" + "".join(rng.choice("abcxyz019_.-") for _ in range(rng.randrange(0, 5)))
-        dstate = rng.choice(["absent", "absent", "dir", "dir", "dirpre"])
+        dstate = rng.choice(["absent", "absent", "absent", "dir", "dir", "dirpre", "dirpre", "file", "conflict", "copy", "copy", "stale"])
         return {"f": "xfer", "src": src, "dst": dst, "sname": sname, "dname": dname, "dstate": dstate,
                 "w": rng.random() < 0.5, "tree": self._tree(rng, tier)}
 
@@ -344,6 +392,13 @@ class C22(Prop):
         routes = list(ROUTES)
         for i in range(n):
             cases.append(self._case(rng, tier, routes[i % len(routes)]))
+        if tier != "extended":      # destination already holding a file / the other kind / an earlier copy, cell by cell
+            for (src, dst) in ROUTES:
+                for tree in (small, fil):
+                    for dstate in ("file", "conflict", "copy", "stale"):
+                        if rng.random() < (0.35 if tier == "quick" else 1.0):
+                            cases.append({"f": "xfer", "src": src, "dst": dst, "sname": "s", "dname": rng.choice(["s", "other"]),
+                                          "dstate": dstate, "w": rng.random() < 0.5, "tree": tree})
         wl = list(WRAPPED)
         for i in range({"quick": 10, "thorough": 90, "extended": 20}[tier]):
             cases.append(self._case(rng, tier, wl[i % len(wl)]))
@@ -584,13 +639,11 @@ class C22(Prop):
         self._build(srcp, c["tree"], srcp, later)
         for a, b in later:
             os.link(a, b)
+        pre = pre_state(c)
         for k in dkinds:
-            if c["dstate"] != "absent":
+            if pre is not None:
                 dp = self._phys(base, k, dst).encode("utf-8", "surrogateescape")
-                os.mkdir(dp)
-                if c["dstate"] == "dirpre":
-                    with open(os.path.join(dp, b"zz keep"), "wb") as f:
-                        f.write(b"keep")
+                self._build(dp, pre, dp, [])
         sl = locs[c["src"]]
         ctx.data_manager.register_path(location=sl, path=src, relpath=src, data_type=self.DataType.PRIMARY)
         out = {"err": None}
@@ -649,7 +702,7 @@ class C22(Prop):
 
     # ------------------------------------------------------------------------------------------ oracle (property text)
     def _expected_place(self, c):
-        return "dst" if c["dstate"] == "absent" else "dst/s"
+        return "dst" if c["dstate"] in ("absent", "file") else "dst/s"
 
     def _dests(self, c, o):
         return [(c["dst"], o)] + list(zip(c.get("more", []), o.get("more", [])))
@@ -681,6 +734,8 @@ class C22(Prop):
 
     def _first_failure(self, c, o):
         if o["err"]:
+            if kind_conflict(c) and o["err"] != "timeout":
+                return None     # a file where a directory has to go (or the reverse): refusing loudly is no loss of exactness
             return (c["dst"], ("transfer-fails", f"transfer_data raised {o['err']}: {o.get('msg', '')}"))
         if o["src"] != canon_in(c["tree"]):
             return (c["dst"], ("source-modified", "the source tree changed during the transfer"))
@@ -702,7 +757,7 @@ class C22(Prop):
     def signature(self, c, o, clause):
         kind = "file" if c["tree"]["t"] == "f" else "dir"
         ren = "rename" if c["sname"] != c["dname"] else "same"
-        d = "absent" if c["dstate"] == "absent" else "dir"
+        d = {"absent": "absent", "dir": "dir", "dirpre": "dir"}.get(c["dstate"], c["dstate"])
         k = c["dst"]
         if "crash" not in o and "hang" not in o:
             f = self._first_failure(c, o)
@@ -751,8 +806,10 @@ class C22(Prop):
                 if x is None:
                     return None
                 odst = f"(Some {x})"
-            pre = {"absent": "None", "dir": "(Some (Dir []))",
-                   "dirpre": f"(Some (Dir [({coq_str('zz keep')}, File {coq_str(ctok(b'keep'))} false)]))"}[c["dstate"]]
+            if kind_conflict(c):
+                return None          # outside the model's domain (FsTree.Cells.fits): tar/tarfile/cp refuse or half-copy
+            ps = pre_state(c)
+            pre = "None" if ps is None else f"(Some {self._coq_tree(canon_in(ps))})"
             regl = od["reg"]
             if route == "RRsame" and k == "W" and c["tree"]["t"] == "d" and c["dstate"] == "absent" \
                     and regl == ["dst:PRIMARY", "dst/s:PRIMARY"]:
